@@ -239,6 +239,16 @@ func RunFamily(f *Family, tier string) int {
 	// --- confirm violations by re-execution as singleton programs ---
 	confirmed := 0
 	var vlines []string
+	mixedPrograms, mixedBad := 0, 0
+	if f.MixedPacks != nil {
+		n, bad, lines, err := mixedPacks(f, sc, execs, f.MixedPacks(tier), rng, seed)
+		if err != nil {
+			return infra(f.Prop, err)
+		}
+		mixedPrograms, mixedBad = n, bad
+		confirmed += bad
+		vlines = append(vlines, lines...)
+	}
 	if len(viols) > 0 && f.Judge == "yaml" {
 		// three results per document; programs are singletons already, nothing to re-pack
 		for _, v := range viols {
@@ -375,6 +385,11 @@ func RunFamily(f *Family, tier string) int {
 			"packing several units as sibling optional sub-objects of one program does not change their behaviour (violations are re-executed as singletons)",
 		}, f.Assume...),
 		WallS: time.Since(t0).Seconds(), Violations: confirmed}
+	if f.MixedPacks != nil {
+		ev.Coverage["mixed_programs"] = mixedPrograms
+		ev.Coverage["mixed_programs_not_compiling"] = mixedBad
+		ev.Coverage["mixed_rule"] = "programs that combine 6 seed-chosen units of different families (each of which compiles on its own) as sibling properties, with their definitions side by side: imports, helper identifiers and type names of different features must not clash"
+	}
 	if apa := <-apaDone; len(apa) > 0 {
 		ev.Coverage["apalache"] = apa
 		for _, m := range apa {
@@ -612,4 +627,109 @@ func ReplayTierSeed(path string) (string, string) {
 		}
 	}
 	return tier, seed
+}
+
+// mixedPacks builds programs that combine units of different families (all compiling on their own, same options,
+// single-document) as sibling properties and checks that every combination compiles. A pack that does not compile
+// although each member does alone is a violation (C01 quantifies over feature COMBINATIONS).
+func mixedPacks(f *Family, sc *work.Scratch, execs []*Exec, want int, rng *rand.Rand, seed int64) (int, int, []string, error) {
+	if want <= 0 {
+		return 0, 0, nil, nil
+	}
+	byOpts := map[string][]*Unit{}
+	var keys []string
+	for _, e := range execs {
+		u := e.Unit
+		if !e.Built || e.FmtBad != "" {
+			continue
+		}
+		if _, multi := u.Raw["rootpath"]; multi {
+			continue
+		}
+		if nb, _ := u.Raw["nobuild"].([]any); len(nb) > 0 {
+			continue
+		}
+		k := u.optsKey()
+		if _, ok := byOpts[k]; !ok {
+			keys = append(keys, k)
+		}
+		byOpts[k] = append(byOpts[k], u)
+	}
+	sort.Strings(keys)
+	const size = 6
+	var packs [][]*Unit
+	for len(packs) < want {
+		progress := false
+		for _, k := range keys {
+			g := byOpts[k]
+			if len(g) < size {
+				continue
+			}
+			p := make([]*Unit, 0, size)
+			seen := map[int]bool{}
+			for len(p) < size {
+				i := rng.Intn(len(g))
+				if !seen[i] {
+					seen[i] = true
+					p = append(p, g[i])
+				}
+			}
+			packs = append(packs, p)
+			progress = true
+			if len(packs) >= want {
+				break
+			}
+		}
+		if !progress {
+			break
+		}
+	}
+	if len(packs) == 0 {
+		return 0, 0, nil, nil
+	}
+	// one Execute call per pack keeps the packs as chosen (Execute packs consecutive units of one option group)
+	var flat []*Unit
+	for _, p := range packs {
+		flat = append(flat, p...)
+	}
+	fb := *f
+	fb.Judge = "build"
+	fb.More = nil
+	re, err := Execute(&fb, sc, "m", flat, size)
+	if err != nil {
+		return 0, 0, nil, err
+	}
+	bad := 0
+	var lines []string
+	seenProg := map[string]bool{}
+	for i, e := range re {
+		if e.Built || e.GenErr != "" && false {
+			continue
+		}
+		if seenProg[e.ProgID] {
+			continue
+		}
+		seenProg[e.ProgID] = true
+		// the members compile alone (they were selected for that): the combination is what fails
+		var members []any
+		for j := i - i%size; j < i-i%size+size && j < len(re); j++ {
+			if re[j].ProgID == e.ProgID {
+				members = append(members, re[j].Unit.Raw)
+			}
+		}
+		bad++
+		if len(lines) < 5 {
+			rp := map[string]any{"property": f.Prop, "kind": "mixed-program", "schema_text": e.Schema, "options": e.Unit.Opts(), "members": members,
+				"expected": "the combination compiles (every member compiles on its own)", "observed": firstLine(e.GenErr + e.BuildErr + " " + e.FmtBad),
+				"how_to_rerun": "bin/vcheck replay " + f.Prop + " <this file>"}
+			dir := filepath.Join(Home(), "replay", f.Prop)
+			_ = os.MkdirAll(dir, 0o755)
+			p := filepath.Join(dir, fmt.Sprintf("seed%d-mixed%d.json", seed, i/size))
+			b, _ := json.MarshalIndent(rp, "", " ")
+			if err := os.WriteFile(p, append(b, '\n'), 0o644); err == nil {
+				lines = append(lines, fmt.Sprintf("VIOLATION property=%s replay=%s", f.Prop, p))
+			}
+		}
+	}
+	return len(packs), bad, lines, nil
 }
